@@ -7,6 +7,8 @@
 (*                   (positional / keyword / None arguments)               *)
 (*   Assign(i, a)    the a-th candidate assignment (path, value) on        *)
 (*                   instance i, when the path exists in its value         *)
+(*   Grow(i, a)      the a-th candidate element is appended to a dynamic   *)
+(*                   array member of instance i                            *)
 (*   Alias(i)        NOT an action: nothing in the API makes two instances *)
 (*                   share state, so every instance is changed by its own  *)
 (*                   Assign only (C14)                                     *)
@@ -55,8 +57,18 @@ Assign(i, a) ==
   /\ log' = Append(log, [act |-> "assign", c |-> a, i |-> i, obs |-> Obs(inst')])
   /\ n' = n + 1 /\ UNCHANGED case
 
+\* an array member without a fixed number of entries grows in place (list.append on the real object)
+Grows == Universe[case].grows          \* sequence of [j, value]
+Grow(i, a) ==
+  /\ n < Depth /\ i \in 1..Len(inst)
+  /\ inst[i].vals[Grows[a].j].k = "list"
+  /\ inst' = [inst EXCEPT ![i].vals[Grows[a].j].items = Append(@, Grows[a].value)]
+  /\ log' = Append(log, [act |-> "grow", c |-> a, i |-> i, obs |-> Obs(inst')])
+  /\ n' = n + 1 /\ UNCHANGED case
+
 GNext == \/ \E c \in 1..Len(Ctors) : Construct(c)
          \/ \E i \in 1..MaxInst, a \in 1..Len(Assigns) : Assign(i, a)
+         \/ \E i \in 1..MaxInst, a \in 1..Len(Grows) : Grow(i, a)
 GSpec == GInit /\ [][GNext]_vars
 
 \* the specification's own frame condition, checked on every generated step: an action changes its target only
